@@ -1,0 +1,14 @@
+//go:build verif
+
+package core
+
+// VerifSynchronizable exposes Entry.synchronizable to the verification harness.
+func VerifSynchronizable(e *Entry) *Entry {
+	return e.synchronizable()
+}
+
+// VerifNormalizeSymbolicLink exposes normalizeSymbolicLinkAndEnsurePortable to
+// the verification harness.
+func VerifNormalizeSymbolicLink(path, target string) (string, error) {
+	return normalizeSymbolicLinkAndEnsurePortable(path, target)
+}
